@@ -1,6 +1,7 @@
 package main
 
 import (
+	"github.com/storacha/go-ucanto/core/schema"
 	"bytes"
 	"crypto/ed25519"
 	"fmt"
@@ -20,6 +21,7 @@ import (
 func init() {
 	gens["C14"] = genC14
 	execs["didparse"] = guard(execDidParse)
+	execs["didread"] = guard(execDidRead)
 	execs["diddecode"] = guard(execDidDecode)
 	execs["sigframe"] = guard(execSigFrame)
 	execs["signew"] = guard(execSigNew)
@@ -298,6 +300,7 @@ func genC14(cfg Config, emit Emit) error {
 	for _, s := range real {
 		emit("didparse", []string{hexTok([]byte(s))}, "did-realistic", s != "")
 	}
+	genDidRead(cfg, emit)
 	for i := 0; i < 300; i++ {
 		// a did:key of random bytes behind each multicodec tag
 		tag := [][]byte{{0xed, 0x01}, {0x85, 0x24}, {0x9d, 0x1a}, {0x00}, {0xe7, 0x01}}[i%5]
@@ -352,4 +355,39 @@ func genC14(cfg Config, emit Emit) error {
 		}
 	}
 	return nil
+}
+
+// execDidRead: the library's schema reader of DID strings, optionally restricted to one method.
+// args = [method or "-", hex string]
+func execDidRead(a []string) Result {
+	var rd schema.Reader[string, string]
+	if a[0] == "-" {
+		rd = schema.DIDString()
+	} else {
+		rd = schema.DIDString(schema.WithMethod(a[0]))
+	}
+	out, err := rd.Read(string(unhexTok(a[1])))
+	if err != nil {
+		return Result{Impl: "err"}
+	}
+	return Result{Impl: "ok:" + hexTok([]byte(out))}
+}
+
+// genDidRead: every string goes to a method-restricted reader first and to the unrestricted one after
+// it (and the other way round): a reader must not remember what another reader said
+func genDidRead(cfg Config, emit Emit) {
+	pools()
+	strs := []string{"did:web:example.com", "did:mailto:web.mail:alice", "did:key:", "did:key:z", "did:", "", "did:web:", "did:dns:x", "did:key:zzz", "did:WEB:x", "DID:web:x",
+		"did:web:example.com#frag", "did:web:example.com/path", "did:web:example.com?q", edPool[3].DID().String() + "#k", "did:key:" + edPool[3].DID().String()[8:] + " "}
+	for i := 0; i < 8; i++ {
+		strs = append(strs, edPool[i].DID().String())
+	}
+	for _, r := range rsaPool {
+		strs = append(strs, r.DID().String())
+	}
+	for _, s := range strs {
+		for _, m := range []string{"key", "-", "web", "-", "mailto", "key"} {
+			emit("didread", []string{m, hexTok([]byte(s))}, "did-reader/"+m, s != "")
+		}
+	}
 }
